@@ -1,6 +1,9 @@
 Base/Bits.vo Base/Bits.glob Base/Bits.v.beautified Base/Bits.required_vo: Base/Bits.v 
 Base/Bits.vio: Base/Bits.v 
 Base/Bits.vos Base/Bits.vok Base/Bits.required_vos: Base/Bits.v 
+Base/FileRank.vo Base/FileRank.glob Base/FileRank.v.beautified Base/FileRank.required_vo: Base/FileRank.v Base/Geom.vo
+Base/FileRank.vio: Base/FileRank.v Base/Geom.vio
+Base/FileRank.vos Base/FileRank.vok Base/FileRank.required_vos: Base/FileRank.v Base/Geom.vos
 Base/Geom.vo Base/Geom.glob Base/Geom.v.beautified Base/Geom.required_vo: Base/Geom.v Base/Bits.vo
 Base/Geom.vio: Base/Geom.v Base/Bits.vio
 Base/Geom.vos Base/Geom.vok Base/Geom.required_vos: Base/Geom.v Base/Bits.vos
@@ -10,6 +13,12 @@ Chess/Fen.vos Chess/Fen.vok Chess/Fen.required_vos: Chess/Fen.v Chess/Rules.vos
 Chess/Rules.vo Chess/Rules.glob Chess/Rules.v.beautified Chess/Rules.required_vo: Chess/Rules.v Base/Geom.vo
 Chess/Rules.vio: Chess/Rules.v Base/Geom.vio
 Chess/Rules.vos Chess/Rules.vok Chess/Rules.required_vos: Chess/Rules.v Base/Geom.vos
+Chess/RulesFacts.vo Chess/RulesFacts.glob Chess/RulesFacts.v.beautified Chess/RulesFacts.required_vo: Chess/RulesFacts.v Chess/Rules.vo Base/FileRank.vo
+Chess/RulesFacts.vio: Chess/RulesFacts.v Chess/Rules.vio Base/FileRank.vio
+Chess/RulesFacts.vos Chess/RulesFacts.vok Chess/RulesFacts.required_vos: Chess/RulesFacts.v Chess/Rules.vos Base/FileRank.vos
+Chess/TextProofs.vo Chess/TextProofs.glob Chess/TextProofs.v.beautified Chess/TextProofs.required_vo: Chess/TextProofs.v Chess/Rules.vo Chess/Fen.vo Chess/RulesFacts.vo Base/FileRank.vo
+Chess/TextProofs.vio: Chess/TextProofs.v Chess/Rules.vio Chess/Fen.vio Chess/RulesFacts.vio Base/FileRank.vio
+Chess/TextProofs.vos Chess/TextProofs.vok Chess/TextProofs.required_vos: Chess/TextProofs.v Chess/Rules.vos Chess/Fen.vos Chess/RulesFacts.vos Base/FileRank.vos
 Engine/Encoding.vo Engine/Encoding.glob Engine/Encoding.v.beautified Engine/Encoding.required_vo: Engine/Encoding.v Base/Bits.vo
 Engine/Encoding.vio: Engine/Encoding.v Base/Bits.vio
 Engine/Encoding.vos Engine/Encoding.vok Engine/Encoding.required_vos: Engine/Encoding.v Base/Bits.vos
@@ -55,6 +64,12 @@ Props/C11Sweep_R6.vos Props/C11Sweep_R6.vok Props/C11Sweep_R6.required_vos: Prop
 Props/C11Sweep_R7.vo Props/C11Sweep_R7.glob Props/C11Sweep_R7.v.beautified Props/C11Sweep_R7.required_vo: Props/C11Sweep_R7.v Engine/Magic.vo Gen/MagicData.vo
 Props/C11Sweep_R7.vio: Props/C11Sweep_R7.v Engine/Magic.vio Gen/MagicData.vio
 Props/C11Sweep_R7.vos Props/C11Sweep_R7.vok Props/C11Sweep_R7.required_vos: Props/C11Sweep_R7.v Engine/Magic.vos Gen/MagicData.vos
+Props/Properties_C01.vo Props/Properties_C01.glob Props/Properties_C01.v.beautified Props/Properties_C01.required_vo: Props/Properties_C01.v Chess/Rules.vo Chess/RulesFacts.vo
+Props/Properties_C01.vio: Props/Properties_C01.v Chess/Rules.vio Chess/RulesFacts.vio
+Props/Properties_C01.vos Props/Properties_C01.vok Props/Properties_C01.required_vos: Props/Properties_C01.v Chess/Rules.vos Chess/RulesFacts.vos
 Props/Properties_C11.vo Props/Properties_C11.glob Props/Properties_C11.v.beautified Props/Properties_C11.required_vo: Props/Properties_C11.v Engine/Magic.vo Engine/MagicProofs.vo Props/C11Glue.vo Gen/MagicData.vo Props/C11Sweep_R0.vo Props/C11Sweep_R1.vo Props/C11Sweep_R2.vo Props/C11Sweep_R3.vo Props/C11Sweep_R4.vo Props/C11Sweep_R5.vo Props/C11Sweep_R6.vo Props/C11Sweep_R7.vo Props/C11Sweep_B.vo
 Props/Properties_C11.vio: Props/Properties_C11.v Engine/Magic.vio Engine/MagicProofs.vio Props/C11Glue.vio Gen/MagicData.vio Props/C11Sweep_R0.vio Props/C11Sweep_R1.vio Props/C11Sweep_R2.vio Props/C11Sweep_R3.vio Props/C11Sweep_R4.vio Props/C11Sweep_R5.vio Props/C11Sweep_R6.vio Props/C11Sweep_R7.vio Props/C11Sweep_B.vio
 Props/Properties_C11.vos Props/Properties_C11.vok Props/Properties_C11.required_vos: Props/Properties_C11.v Engine/Magic.vos Engine/MagicProofs.vos Props/C11Glue.vos Gen/MagicData.vos Props/C11Sweep_R0.vos Props/C11Sweep_R1.vos Props/C11Sweep_R2.vos Props/C11Sweep_R3.vos Props/C11Sweep_R4.vos Props/C11Sweep_R5.vos Props/C11Sweep_R6.vos Props/C11Sweep_R7.vos Props/C11Sweep_B.vos
+Props/Properties_C16.vo Props/Properties_C16.glob Props/Properties_C16.v.beautified Props/Properties_C16.required_vo: Props/Properties_C16.v Engine/Encoding.vo Engine/EncodingProofs.vo Chess/Rules.vo Chess/Fen.vo Chess/TextProofs.vo
+Props/Properties_C16.vio: Props/Properties_C16.v Engine/Encoding.vio Engine/EncodingProofs.vio Chess/Rules.vio Chess/Fen.vio Chess/TextProofs.vio
+Props/Properties_C16.vos Props/Properties_C16.vok Props/Properties_C16.required_vos: Props/Properties_C16.v Engine/Encoding.vos Engine/EncodingProofs.vos Chess/Rules.vos Chess/Fen.vos Chess/TextProofs.vos
